@@ -150,6 +150,12 @@ def cmd_compare(argv):
     rc = 0
     for name, _, binary in cfgs[1:]:
         m = maps[name]
+        if set(base) != set(m):
+            # the legs did not execute the same runs (e.g. the harness was edited between two legs):
+            # nothing can be concluded
+            print("HARNESS-ERROR: the digest files of [%s] (%d runs) and [%s] (%d runs) do not cover the same runs" % (base_name, len(base), name, len(m)))
+            rc = 2
+            break
         diffs = sorted(i for i in set(base) | set(m) if base.get(i) != m.get(i))
         if not diffs:
             continue
